@@ -228,6 +228,12 @@ Theorem hier_fm_spec : forall (present : digest -> bool) ds,
 Proof. exact hier_fm_honest. Qed.
 Print Assumptions hier_fm_spec.
 
+(** termination whatever the backend does (errors, answers that change between the levels) *)
+Theorem hier_fm_terminates : forall (fm : nat -> list digest -> outcome (list digest)) ds,
+  (forall k q, fm k q <> Panic) -> fst (hier_fm fm ds) <> Panic.
+Proof. exact hier_fm_no_panic. Qed.
+Print Assumptions hier_fm_terminates.
+
 Theorem parents_of_contains_self : forall d, In d (parents_of d).
 Proof. exact parents_of_self. Qed.
 Print Assumptions parents_of_contains_self.
